@@ -494,6 +494,11 @@ func validateWire(r *Run, p *dhcpv4.DHCPv4, w []byte, cs string) {
 	if int(ref.hlen) != hl%256 {
 		r.Fail("c07-hlen", cs, "")
 	}
+	wantCh := make([]byte, 16)
+	copy(wantCh, p.ClientHWAddr)
+	if !bytes.Equal(w[28:44], wantCh) {
+		r.Fail("c07-rfc-decoder-chaddr", cs, fmt.Sprintf("chaddr field % x, packet's hardware address % x", w[28:44], p.ClientHWAddr))
+	}
 	for c, v := range p.Options {
 		if c == 0 || c == 255 {
 			continue
@@ -674,6 +679,14 @@ func genC04(r *Run) {
 			for k := 0; k < 12; k++ {
 				add(w[:r.Rng.Intn(len(w)+1)])
 			}
+		}
+		// the cookie as a whole: absent (zero), BOOTP vendor area, byte-swapped, all ones, the v6 way round
+		for _, ck := range [][]byte{{0, 0, 0, 0}, {0xff, 0xff, 0xff, 0xff}, {99, 83, 130, 99}, {130, 99, 83, 99}, {99, 130, 83, 0}, {0, 130, 83, 99}, {1, 0, 0, 0}} {
+			m := append([]byte{}, w...)
+			copy(m[236:240], ck)
+			add(m)
+			add(m[:240])
+			add(append(append([]byte{}, m[:240]...), make([]byte, 60)...))
 		}
 		// corruption of cookie, hlen and each option length octet
 		for _, off := range []int{236, 237, 238, 239, 2} {
